@@ -46,7 +46,7 @@ CHECKS = {
         "taxonomy: c03_aggregate_is_running_product and c03_single_child (a level below a single-child parent carries that child, probability 1, no runners-up and "
         "the correlation of the level above; 1 at a single top node), c03_avg_corr_range (the reported AVERAGE correlation of the winner and of every runner-up, corr_sum / where(votes>0, votes, 1), "
         "has |numerator| <= denominator whenever each per-iteration correlation lies in [-1,1]; a type without votes gets 0), c03_reported_avg_corr_ok and c03_filled_corr_in_range (after the two trailing passes of run_type_assignment - inheritance from the level above, 1.0 at the top, running product - "
-        "EVERY level of every row, voted, single-child or inherited over any number of levels, carries a correlation fraction in [-1,1] whenever the voted ones are). Tie: every record of real run_mapping runs (iteration count 1, zero runners-up, more runners-up "
+        "EVERY level of every row, voted, single-child or inherited over any number of levels, carries a correlation fraction in [-1,1] whenever the voted ones are), c03_tallied_votes_total (on the array tally_votes + aggregate_votes build, the votes of the distinct types add up to the iteration count). Tie: every record of real run_mapping runs (iteration count 1, zero runners-up, more runners-up "
         "than siblings, single-child chains, flatten / dropped levels) checked against the contract through the extracted check_choice on recomputed votes.",
    note="The [-1,1] clause is checked on the implementation with a 1e-9 allowance (real outputs contain 1.0000000000000002), the model proves it "
         "exactly; aggregate probability compared with the float running product within 1e-12.",
